@@ -387,7 +387,11 @@ class FnEval:
                 return r
             # payload of an iterator's next(): `(_opt as Some).0`
             if o[0] in ("cp", "mv") and len(o[1]) == 3 and o[1][1][0] == "d" and o[1][2][0] == "f":
-                return self.iter_payload(o[1][0])
+                r = self.iter_payload(o[1][0])
+                if r is not None:
+                    return r
+            if o[0] in ("cp", "mv") and len(o[1]) > 1:
+                return self.yielded_index(local, self.at)
             return None
         if k == "cast":
             r = self._op_at(rv[2], d, depth)
@@ -518,6 +522,176 @@ class FnEval:
                 return self.iter_range(l, depth + 1)
         return None
 
+    def iter_struct(self, itlocal, depth=0):
+        """Shape of what an iterator local yields: ('chunk', n) a slice of exactly n elements (chunks_exact),
+        ('chunkle', n) a non-empty slice of at most n, ('tuple', [..]) for zip / enumerate, None when unknown."""
+        if depth > 10:
+            return None
+        defs = [d for d in self.b.defs().get(itlocal, []) if d[2] in ("A", "call")]
+        if len(defs) != 1:
+            return None
+        d = defs[0]
+        if d[2] == "A":
+            rv = d[3][2]
+            if rv[0] == "use":
+                l = operand_local(rv[1])
+                return self.iter_struct(l, depth + 1) if l is not None else None
+            return None
+        nm = d[3][1]["f"]
+        args = d[3][2]
+        last = nm.rsplit("::", 1)[-1]
+        a0 = operand_local(args[0]) if args else None
+        if last in ("into_iter", "rev", "skip", "take", "by_ref", "fuse", "peekable") and a0 is not None:
+            return self.iter_struct(a0, depth + 1)
+        if last in ("chunks_exact", "chunks_exact_mut") and len(args) == 2:
+            n = self.op_ival(args[1])
+            if n is not None and n[0] == n[1] and n[0] >= 1:
+                return ("chunk", int(n[0]))
+            return None
+        if last in ("chunks", "chunks_mut") and len(args) == 2:
+            n = self.op_ival(args[1])
+            if n is not None and n[0] == n[1] and n[0] >= 1:
+                return ("chunkle", int(n[0]))
+            return None
+        if last == "zip" and len(args) == 2:
+            a1 = operand_local(args[1])
+            return ("tuple", [self.iter_struct(a0, depth + 1) if a0 is not None else None,
+                              self.iter_struct(a1, depth + 1) if a1 is not None else None])
+        if last == "enumerate" and a0 is not None:
+            return ("tuple", [("index",), self.iter_struct(a0, depth + 1)])
+        return None
+
+    def iter_count(self, itlocal, at, depth=0):
+        """Upper bound on the number of items an iterator local yields (None when unknown)."""
+        if depth > 10:
+            return None
+        defs = [d for d in self.b.defs().get(itlocal, []) if d[2] in ("A", "call")]
+        if len(defs) != 1:
+            return None
+        d = defs[0]
+        if d[2] == "A":
+            rv = d[3][2]
+            if rv[0] == "use":
+                l = operand_local(rv[1])
+                return self.iter_count(l, at, depth + 1) if l is not None else None
+            if rv[0] == "agg" and rv[1].get("path", "").endswith("ops::Range"):
+                a, c = self.op_ival(rv[2][0]), self.op_ival(rv[2][1])
+                if a is not None and c is not None and c[1] != INF:
+                    return max(0, c[1] - a[0])
+            return None
+        nm = d[3][1]["f"]
+        args = d[3][2]
+        last = nm.rsplit("::", 1)[-1]
+        a0 = operand_local(args[0]) if args else None
+        if last in ("into_iter", "rev", "enumerate", "by_ref", "fuse", "peekable", "skip", "map", "inspect") and a0 is not None:
+            n = self.iter_count(a0, at, depth + 1)
+            if n is None and last == "into_iter":
+                L = self.slice_len(args[0], at, depth + 1)     # `for x in &array`
+                return L[1] if L is not None and L[1] != INF else None
+            return n
+        if last in ("iter", "iter_mut") and args:
+            L = self.slice_len(args[0], at, depth + 1)
+            return L[1] if L is not None and L[1] != INF else None
+        if last in ("chunks_exact", "chunks_exact_mut", "chunks", "chunks_mut") and len(args) == 2:
+            L = self.slice_len(args[0], at, depth + 1)
+            n = self.op_ival(args[1])
+            if L is not None and L[1] != INF and n is not None and n[0] >= 1:
+                return -(-L[1] // n[0])
+            return None
+        if last == "zip" and len(args) == 2:
+            a1 = operand_local(args[1])
+            x = self.iter_count(a0, at, depth + 1) if a0 is not None else None
+            y = self.iter_count(a1, at, depth + 1) if a1 is not None else None
+            if x is None:
+                return y
+            if y is None:
+                return x
+            return min(x, y)
+        if last == "take" and len(args) == 2:
+            n = self.op_ival(args[1])
+            return n[1] if n is not None and n[1] != INF else None
+        return None
+
+    def yielded_index(self, local, at, depth=0):
+        """Interval of a local that is the index component of an `enumerate()` payload."""
+        d = self.b.single_def(local)
+        if not d or d[2] != "A" or d[3][2][0] != "use" or depth > 8:
+            return None
+        o = d[3][2][1]
+        if o[0] not in ("cp", "mv"):
+            return None
+        pl = o[1]
+        if len(pl) == 1:
+            return self.yielded_index(pl[0], at, depth + 1)
+        # find the next() call at the root of the projection chain and the path of tuple fields taken
+        root, proj = pl[0], list(pl[1:])
+        chain = []
+        for _ in range(6):
+            if len(proj) >= 2 and proj[0] != "*" and proj[0][0] == "d" and proj[1][0] == "f" and proj[1][1] == 0:
+                chain = [e[1] for e in proj[2:] if e != "*" and e[0] == "f"] + chain
+                break
+            chain = [e[1] for e in proj if e != "*" and e[0] == "f"] + chain
+            dd = self.b.single_def(root)
+            if not dd or dd[2] != "A" or dd[3][2][0] != "use" or dd[3][2][1][0] not in ("cp", "mv"):
+                return None
+            root, proj = dd[3][2][1][1][0], list(dd[3][2][1][1][1:])
+        else:
+            return None
+        dd = self.b.single_def(root)
+        if not (dd and dd[2] == "call" and dd[3][1]["f"].endswith("::next") and dd[3][2]):
+            return None
+        l = operand_local(dd[3][2][0])
+        it = self.ref_target_local(l) if l is not None else None
+        st = self.iter_struct(it) if it is not None else None
+        cur = st
+        for k in chain:
+            if cur is None or cur[0] != "tuple" or k >= len(cur[1]):
+                return None
+            cur = cur[1][k]
+        if cur != ("index",):
+            return None
+        n = self.iter_count(it, at)
+        if n is None or n <= 0:
+            return None
+        return (0, n - 1)
+
+    def yielded_struct(self, local, depth=0):
+        """Shape (see iter_struct) of a local that is (a component of) the payload of an iterator's `next()`."""
+        if depth > 8:
+            return None
+        d = self.b.single_def(local)
+        if not d or d[2] != "A" or d[3][2][0] != "use":
+            return None
+        o = d[3][2][1]
+        if o[0] not in ("cp", "mv"):
+            return None
+        pl = o[1]
+        if len(pl) == 1:
+            return self.yielded_struct(pl[0], depth + 1)
+        root = pl[0]
+        proj = pl[1:]
+        base = None
+        if len(proj) >= 2 and proj[0] != "*" and proj[0][0] == "d" and proj[1][0] == "f" and proj[1][1] == 0:
+            # (_opt as Some).0 ...
+            dd = self.b.single_def(root)
+            if dd and dd[2] == "call" and dd[3][1]["f"].endswith("::next") and dd[3][2]:
+                l = operand_local(dd[3][2][0])
+                it = self.ref_target_local(l) if l is not None else None
+                base = self.iter_struct(it) if it is not None else None
+            proj = proj[2:]
+        else:
+            base = self.yielded_struct(root, depth + 1)
+        for e in proj:
+            if base is None:
+                return None
+            if e != "*" and e[0] == "f" and base[0] == "tuple" and e[1] < len(base[1]):
+                base = base[1][e[1]]
+            elif e == "*":
+                continue
+            else:
+                return None
+        return base
+
     # ---- slice lengths -------------------------------------------------------
     def array_len_of_ty(self, tid):
         td = self.f.ty(tid)
@@ -607,6 +781,11 @@ class FnEval:
         if len(defs) != 1:
             return None
         d = defs[0]
+        ys = self.yielded_struct(local)
+        if ys is not None and ys[0] == "chunk":
+            return (ys[1], ys[1])
+        if ys is not None and ys[0] == "chunkle":
+            return (1, ys[1])
         if d[2] == "A":
             rv = d[3][2]
             if rv[0] == "ref" or rv[0] == "rawptr":
@@ -1378,6 +1557,13 @@ class FnEval:
         if not d:
             return None
         if d[2] == "call":
+            nm = d[3][1]["f"]
+            if not d[3][1]["l"] and "option::Option" in nm and d[3][2] and nm.rsplit("::", 1)[-1] in (
+                    "filter", "map", "and_then", "inspect", "copied", "cloned", "as_ref", "as_mut", "zip"):
+                # Some(..) out of these combinators implies Some(..) in: the success facts of the producer still hold
+                inner = self._call_of(d[3][2][0], depth + 1)
+                if inner is not None:
+                    return inner
             return (d[3], fld)
         if fld is None and d[3][2][0] == "use":
             return self._call_of(d[3][2][1], depth + 1)
@@ -1458,6 +1644,69 @@ class FnEval:
                     if int(val) == 1:
                         self._emit_callee_facts(ct, bi, tgt, out)
 
+    def _callee_facts_dict(self, call_t):
+        out = {}
+        if not call_t[1]["l"] or self.ctx is None:
+            return out
+        for p, iv in self.ctx.succ_len(call_t[1]["id"]).items():
+            if p - 1 < len(call_t[2]):
+                root = self.ref_root(call_t[2][p - 1])
+                if root is not None:
+                    out[root] = iv
+        return out
+
+    def _cond_success_facts(self, op, depth=0):
+        """{param: (lo, hi)} implied by the bool operand being true"""
+        l = operand_local(op)
+        d = self.b.single_def(l) if l is not None else None
+        if not d or depth > 6:
+            return {}
+        if d[2] == "call":
+            return self._callee_facts_dict(d[3])
+        rv = d[3][2]
+        if rv[0] == "use":
+            return self._cond_success_facts(rv[1], depth + 1)
+        if rv[0] == "bin" and rv[1] in ("Ne", "Eq", "Ge", "Gt", "Le", "Lt"):
+            for x, y, flip in ((rv[2], rv[3], False), (rv[3], rv[2], True)):
+                c = const_int(y)
+                if c is None:
+                    continue
+                if c == 0 and rv[1] == "Ne":
+                    co = self._call_of(x)
+                    if co is not None:
+                        return self._callee_facts_dict(co[0])
+                root = self.len_root(x)
+                if root is not None:
+                    opn = rv[1]
+                    if flip:
+                        opn = {"Eq": "Eq", "Ne": "Ne", "Lt": "Gt", "Le": "Ge", "Gt": "Lt", "Ge": "Le"}[opn]
+                    iv = self._cond_interval(opn, int(c), True)
+                    if iv:
+                        return {root: iv}
+        return {}
+
+    def _option_success_facts(self, op, depth=0):
+        """{param: (lo, hi)} implied by the Option operand being Some"""
+        if depth > 6 or op[0] not in ("cp", "mv") or len(op[1]) != 1:
+            return {}
+        d = self.b.single_def(op[1][0])
+        if not d:
+            return {}
+        if d[2] == "A":
+            if d[3][2][0] == "use":
+                return self._option_success_facts(d[3][2][1], depth + 1)
+            return {}
+        t = d[3]
+        nm = t[1]["f"]
+        if t[1]["l"]:
+            return self._callee_facts_dict(t)
+        last = nm.rsplit("::", 1)[-1]
+        if "bool" in nm and last in ("then_some", "then") and t[2]:
+            return self._cond_success_facts(t[2][0])
+        if "option::Option" in nm and last in ("filter", "map", "and_then", "inspect", "copied", "cloned", "zip") and t[2]:
+            return self._option_success_facts(t[2][0], depth + 1)
+        return {}
+
     def success_lengths(self):
         """{param: (lo, hi)}: bounds on len(param slice) that hold whenever this function reports success
         (returns Some / a non-zero status / true)."""
@@ -1506,6 +1755,13 @@ class FnEval:
         if not succ_blocks:
             return {}
         out = {}
+        # `(status != 0).then_some(v)` / `decode(buf).filter(..)`: Some-ness decided by a std combinator
+        if mode == "option":
+            d0 = self.b.single_def(0) if len(self.b.defs().get(0, [])) == 1 else None
+            if d0 and d0[2] == "call" and not d0[3][1]["l"]:
+                r = self._option_success_facts(["cp", [0]])
+                if r:
+                    return r
         # `fn check_len(buf) -> bool { buf.len() == 32 }`: the returned comparison itself
         if mode == "bool":
             d0 = self.b.single_def(0) if len(self.b.defs().get(0, [])) == 1 else None
